@@ -497,6 +497,7 @@ def child_history(ops: List[Any], fixed: List[Tuple[str, Any]], reference: List[
             i = op[1] % len(convs)
             convs.pop(i)
             memo = {(k if k < i else k - 1): v for k, v in memo.items() if k != i}
+            conv = label = None   # loop variables of earlier steps must not keep the dropped converter alive
             gc.collect()
         elif op[0] == "use" and convs:
             label, conv = convs[op[1] % len(convs)]
@@ -671,6 +672,23 @@ def _work_hist(args) -> dict:
             for sig, detail, step in res["findings"]:
                 ctx.finding(tuple(sig), detail + f"; history {short[: step + 1]}", {"ops": self.ops[: step + 1]})
 
+    if shard == 0:
+        # standing histories (the replay tier of this part): every user-supplied configuration is created, used, forgotten
+        # and created again - twice, so that a later converter can take the place (and the address) of a collected one
+        user_kinds = [k for k in CONFIGS if k != "fresh"]
+        for k1 in user_kinds:
+            for k2 in (k1, user_kinds[(user_kinds.index(k1) + 1) % len(user_kinds)]):
+                ops = [["create", k1], ["use", 0, 3], ["drop", 0], ["create", k2], ["use", 0, 5], ["drop", 0], ["create", "fresh"], ["create", k1], ["drop", 1], ["create", k2]]
+                ref = in_child(child_reference, fixed)
+                res = in_child(child_history, ops, fixed, ref["outcomes"], wide) if ref is not None else None
+                stats["scripted_histories"] += 1
+                if res is None:
+                    stats["inconclusive_timeouts"] += 1
+                    continue
+                stats["creations"] += 5
+                stats["battery_evaluations"] += res["evaluations"]
+                for sig, detail, step in res["findings"]:
+                    ctx.finding(tuple(sig), detail + f"; history {ops[: step + 1]}", {"ops": ops[: step + 1]})
     run_state_machine_as_test(
         hypothesis.seed(derive_seed(seed, "C19", "hist", shard))(Hist),
         settings=settings(max_examples=examples, stateful_step_count=steps, database=None, deadline=None,
